@@ -361,6 +361,7 @@ func (u *Universe) StructOf(name string, st *types.Struct, sortOf func(types.Typ
 		return sn
 	}
 	dt := &DT{Name: sn, Kind: "struct"}
+	structSorts[sn] = true
 	u.dts[sn] = dt // placeholder against recursion
 	var fs []string
 	for i := 0; i < st.NumFields(); i++ {
